@@ -5,7 +5,9 @@ import (
 	"fmt"
 	"io"
 	"math/rand"
+	"net"
 	"strings"
+	"time"
 
 	"verif/harness/drv"
 	"verif/harness/gen"
@@ -317,6 +319,10 @@ func runC12(c *Ctx) {
 			r.Sample(map[string]interface{}{"backend": j.kind, "payload_len": 70000, "chunk_sizes": []int{65536}, "schedule": "1460-byte pieces, last piece returned together with io.EOF"})
 		}
 	})
+	// real transport: the stream is written to a loopback TCP connection in small pieces, so the
+	// server's own net/http reader decides how the bytes reach the decoder
+	c12OverTCP(r)
+	r.Require("tcp_streams", 50)
 	r.Require("valid_streams", 5000)
 	r.Require("single_split_points", 1000)
 	r.Require("malformed_streams", 500)
@@ -348,4 +354,95 @@ func min(a, b int) int {
 		return a
 	}
 	return b
+}
+
+// c12OverTCP sends aws-chunked uploads over raw loopback TCP connections, writing the
+// request in pieces of a given size (with the connection flushed between pieces).
+func c12OverTCP(r *rep.Reporter) {
+	type job struct {
+		kind  string
+		piece int
+	}
+	var jobs []job
+	for _, k := range drv.AllKinds {
+		for _, piece := range []int{1, 3, 17, 83, 1460, 4096, 65536} {
+			jobs = append(jobs, job{k, piece})
+		}
+	}
+	rep.Parallel(len(jobs), 0, func(w, ji int) {
+		j := jobs[ji]
+		s := mustServer(drv.Opts{Kind: j.kind})
+		defer s.Close()
+		bucket := "chunk-bucket"
+		if drv.IsSingle(j.kind) {
+			bucket = drv.SingleName
+		} else {
+			s.CreateBucket(bucket)
+		}
+		tcp := s.ServeTCP()
+		defer tcp.Close()
+		rng := gen.Rng(r.Seed, "C12-tcp-"+j.kind, j.piece)
+		sizes := []int{0, 1, 100, 5000, 70000}
+		if j.piece < 17 {
+			sizes = []int{0, 1, 100, 3000}
+		}
+		for si, plen := range sizes {
+			for ci, ch := range [][]int{{7}, {1000}, {65536}, {40000, 1, 9}} {
+				if ch[0] == 7 && plen > 5000 {
+					continue
+				}
+				payload := gen.Body(rng, plen, gen.PatCRLF, uint32(plen+ci))
+				stream := chunkEncode(payload, ch)
+				key := fmt.Sprintf("tcp/p%d/obj-%d-%d", j.piece, si, ci)
+				head := fmt.Sprintf("PUT /%s/%s HTTP/1.1\r\nHost: s3.test\r\nContent-Length: %d\r\nx-amz-content-sha256: STREAMING-AWS4-HMAC-SHA256-PAYLOAD\r\nx-amz-decoded-content-length: %d\r\nContent-Encoding: aws-chunked\r\nConnection: close\r\n\r\n", bucket, key, len(stream), len(payload))
+				status, err := rawSend(tcp.Srv.Listener.Addr().String(), append([]byte(head), stream...), j.piece)
+				r.Eval(1)
+				r.Count("tcp_streams", 1)
+				r.Distinct(fmt.Sprintf("%s|tcp|%d|%v|piece=%d", j.kind, plen, ch, j.piece))
+				trig := fmt.Sprintf("tcp,chunks=%s,piece=%d", chunkClass(ch, plen), j.piece)
+				if err != nil || status != 200 {
+					r.Violation(sig("C12", backendClass(j.kind), "valid-stream-refused", trig), fmt.Sprintf("%s aws-chunked upload of %d bytes over TCP in %d-byte writes: status %d err %v", j.kind, plen, j.piece, status, err), nil)
+					continue
+				}
+				g := s.Get(bucket, key)
+				if g.Status != 200 || !bytes.Equal(g.Body, payload) {
+					r.Violation(sig("C12", backendClass(j.kind), "stored-differs-from-payload", trig), fmt.Sprintf("%s aws-chunked upload of %d bytes over TCP in %d-byte writes stored %d bytes (md5 %s, want %s)", j.kind, plen, j.piece, len(g.Body), drv.MD5Hex(g.Body), drv.MD5Hex(payload)), nil)
+				}
+			}
+		}
+	})
+}
+
+// rawSend writes req to addr in pieces and returns the status code of the reply.
+func rawSend(addr string, req []byte, piece int) (int, error) {
+	conn, err := net.DialTimeout("tcp", addr, 10*time.Second)
+	if err != nil {
+		return 0, err
+	}
+	defer conn.Close()
+	conn.SetDeadline(time.Now().Add(120 * time.Second))
+	if tc, ok := conn.(*net.TCPConn); ok {
+		tc.SetNoDelay(true)
+	}
+	for off := 0; off < len(req); off += piece {
+		end := off + piece
+		if end > len(req) {
+			end = len(req)
+		}
+		if _, err := conn.Write(req[off:end]); err != nil {
+			return 0, err
+		}
+		if piece < 100 && off%(piece*64) == 0 {
+			time.Sleep(50 * time.Microsecond) // let the server drain so that small segments stay small
+		}
+	}
+	reply, err := io.ReadAll(conn)
+	if err != nil && len(reply) == 0 {
+		return 0, err
+	}
+	var status int
+	if _, err := fmt.Sscanf(string(reply), "HTTP/1.1 %d", &status); err != nil {
+		return 0, fmt.Errorf("unparsable reply %q", clip(string(reply), 80))
+	}
+	return status, nil
 }
